@@ -97,7 +97,7 @@ impl<'a> Gen<'a> {
             0 => (self.small_num(), Ty::Num),
             1 => (self.small_str(), Ty::Str),
             2 => {
-                let n = self.rng.below(4) as usize;
+                let n = if self.rng.chance(1, 4) { self.rng.range(5, 9) as usize } else { self.rng.below(4) as usize };
                 let xs = (0..n).map(|_| if self.rng.chance(1, 5) { self.data(depth + 1).0 } else { self.small_num() }).collect();
                 (E::List(xs), Ty::List)
             }
@@ -132,6 +132,20 @@ impl<'a> Gen<'a> {
             },
         }
     }
+    /// `e` reached through a route that returns the very same heap value.
+    fn alias_path(&mut self, e: E) -> E {
+        match self.rng.below(9) {
+            0 => call(lam(&["x"], id("x")), vec![e]),
+            1 => bin("into", e, lam(&["x"], id("x"))),
+            2 => idx(E::List(vec![e]), num(0)),
+            3 => cond(E::Bool(true), e, E::Null),
+            4 => doblk(vec![], e),
+            5 => dot(E::Rec(vec![RK::Static("k".into(), e)]), "k"),
+            6 => call(E::Lam(vec![], Box::new(e)), vec![]),
+            _ => e,
+        }
+    }
+
     fn lambda(&mut self, self_name: Option<&str>) -> E {
         let p = (*self.rng.pick(&["x", "n", "a", "b", "k"])).to_string(); // may shadow a bound name
         match self.rng.below(8) {
@@ -210,6 +224,17 @@ impl<'a> Gen<'a> {
                     "do", "return", "output", "sort", "print", "time_now", "range", "keys",
                 ]);
                 let e = self.data(0).0;
+                if self.rng.chance(1, 5) && !KEYWORDS.contains(&r) {
+                    // reserved name shadowed inside a do-block / as a parameter: legal there,
+                    // must never reach the root environment
+                    let b = match self.rng.below(4) {
+                        0 => doblk(vec![], assign(r, e)),
+                        1 => doblk(vec![assign(r, e)], num(1)),
+                        2 => call(E::Lam(vec![], Box::new(assign(r, e))), vec![]),
+                        _ => doblk(vec![bin("+", num(1), num(1))], E::List(vec![assign(r, e)])),
+                    };
+                    return (Stmt::Expr(b), "reserved-in-inner-scope");
+                }
                 if self.rng.chance(1, 4) {
                     // nested position
                     (Stmt::Expr(E::List(vec![E::Raw(format!("{} = {}", r, show(&e)))])), "bind-reserved-nested")
@@ -269,7 +294,13 @@ impl<'a> Gen<'a> {
             6 => {
                 let s1 = self.any_name();
                 let s2 = self.any_name();
-                let body = match self.rng.below(4) {
+                let body = match self.rng.below(10) {
+                    4 => doblk(vec![], assign(&s1, num(5))),
+                    5 => doblk(vec![call(id("len"), vec![E::List(vec![])])], assign(&s1, num(6))),
+                    6 => doblk(vec![bin("*", assign(&s1, num(4)), num(2))], bin("+", id(&s1), num(1))),
+                    7 => doblk(vec![cond(E::Bool(true), assign(&s1, num(1)), num(2))], num(0)),
+                    8 => doblk(vec![assign(&s2, num(1))], doblk(vec![], assign(&s2, num(2)))),
+                    9 => doblk(vec![call(id("len"), vec![E::List(vec![assign(&s1, num(3))])])], assign(&s2, id(&s1))),
                     0 => doblk(vec![assign(&s1, num(5))], id(&s1)),
                     1 => doblk(vec![assign(&s1, num(5)), assign(&s2, bin("+", id(&s1), num(1)))], E::List(vec![id(&s1), id(&s2)])),
                     2 => doblk(vec![assign("x", E::List(vec![assign(&s1, num(2))]))], id("x")),
@@ -285,7 +316,22 @@ impl<'a> Gen<'a> {
             }
             7 => {
                 let p = self.any_name();
-                match self.rng.below(3) {
+                match self.rng.below(6) {
+                    3 => {
+                        let q = self.any_name();
+                        (Stmt::Expr(call(E::Lam(vec![], Box::new(E::Assign(q, Box::new(num(8))))), vec![])), "call-zero-arg-assigns")
+                    }
+                    4 => {
+                        let q = self.any_name();
+                        (Stmt::Expr(call(E::Lam(vec![], Box::new(doblk(vec![], E::Assign(q, Box::new(num(8)))))), vec![])), "call-zero-arg-assigns")
+                    }
+                    5 => {
+                        let q = self.any_name();
+                        (
+                            Stmt::Expr(call(E::Lam(vec![Arg::Opt(p.clone()), Arg::Rest("more".into())], Box::new(E::List(vec![E::Assign(q, Box::new(id("more"))), id(&p)]))), vec![num(1), num(2)])),
+                            "call-body-assigns",
+                        )
+                    }
                     0 => (Stmt::Expr(call(lam(&[&p], bin("+", id(&p), num(1))), vec![num(5)])), "call-shadow-param"),
                     1 => {
                         let q = self.any_name();
@@ -315,18 +361,40 @@ impl<'a> Gen<'a> {
             }
             9 => match self.bound_of(&[Ty::List]) {
                 Some(l) => {
-                    let e = match self.rng.below(6) {
-                        0 => call(id("sort"), vec![id(&l)]),
-                        1 => call(id("reverse"), vec![id(&l)]),
-                        2 => call(id("concat"), vec![id(&l), E::List(vec![num(1)])]),
-                        3 => call(id("unique"), vec![id(&l)]),
-                        4 => E::List(vec![E::Spread(Box::new(id(&l))), num(9)]),
-                        _ => call(id("sort_by"), vec![id(&l), lam(&["x"], E::Neg(Box::new(id("x"))))]),
+                    let target = self.alias_path(id(&l));
+                    let e = match self.rng.below(16) {
+                        0 => call(id("sort"), vec![target]),
+                        1 => call(id("reverse"), vec![target]),
+                        2 => call(id("concat"), vec![target, E::List(vec![num(1)])]),
+                        3 => call(id("unique"), vec![target]),
+                        4 => E::List(vec![E::Spread(Box::new(target)), num(9)]),
+                        5 => call(id("sort_by"), vec![target, lam(&["x"], E::Neg(Box::new(id("x"))))]),
+                        6 => bin(*self.rng.pick(&["*", "-", "/", "%", "^", "+"]), target, self.small_num()),
+                        7 => bin(*self.rng.pick(&["*", "-", "+"]), self.small_num(), target),
+                        8 => bin(*self.rng.pick(&["+", "*"]), target, id(&l)),
+                        9 => bin("via", target, lam(&["x"], bin("*", id("x"), num(2)))),
+                        10 => bin("where", target, lam(&["x"], bin(".>", id("x"), num(1)))),
+                        11 => call(id("map"), vec![target, lam(&["x"], bin("+", id("x"), num(1)))]),
+                        12 => call(id(*self.rng.pick(&["flatten", "tail", "head", "len", "sum", "max"])), vec![target]),
+                        13 => call(id("slice"), vec![target, num(0), num(1)]),
+                        14 => call(id("zip"), vec![target, id(&l)]),
+                        _ => bin("??", target, num(0)),
                     };
+                    // repeat the operation so that an in-place effect becomes visible twice
+                    let e = if self.rng.chance(1, 3) { E::List(vec![e.clone(), e, id(&l)]) } else { e };
                     (Stmt::Expr(e), "builtin-on-bound")
                 }
                 None => match self.bound_of(&[Ty::Rec]) {
-                    Some(r) => (Stmt::Expr(E::Rec(vec![RK::Spread(id(&r)), RK::Static("k".into(), num(1))])), "builtin-on-bound"),
+                    Some(r) => {
+                        let target = self.alias_path(id(&r));
+                        let e = match self.rng.below(4) {
+                            0 => E::Rec(vec![RK::Spread(target), RK::Static("k".into(), num(1))]),
+                            1 => call(id(*self.rng.pick(&["keys", "values", "entries"])), vec![target]),
+                            2 => E::Rec(vec![RK::Static("k".into(), num(1)), RK::Spread(target)]),
+                            _ => dot(target, "k"),
+                        };
+                        (Stmt::Expr(e), "builtin-on-bound")
+                    }
                     None => (Stmt::Expr(call(id("sort"), vec![E::List(vec![num(3), num(1)])])), "builtin-on-bound"),
                 },
             },
